@@ -2,6 +2,7 @@
 package main
 
 import (
+	"os"
 	"fmt"
 	"go/token"
 	"go/types"
@@ -470,6 +471,7 @@ func (e *Exec) atLoopHead(s *State, b *ssa.BasicBlock, lr loopRef, depth int) {
 			}
 		}
 	}
+	e.rangeIndexFact(h, b)
 	lc = e.loopContext(h, b)
 	henv := e.invEnv(h, lc)
 	for _, inv := range spec.Invs {
@@ -787,6 +789,9 @@ func (w *World) verifyFunc(con *Contract) (fr *FuncResult) {
 		}
 		e.entryVars[p.Name()] = TV{v, p.Type()}
 	}
+	if os.Getenv("GOVC_TRACE") != "" {
+		fmt.Println("TRACE aliases", con.Key, con.ParamAliases, con.Params)
+	}
 	for alias, j := range con.ParamAliases {
 		if j < len(f.Params) {
 			e.entryVars[alias] = TV{s.regs[f.Params[j]], f.Params[j].Type()}
@@ -994,4 +999,38 @@ func (e *Exec) lemmaCallee(st LemmaStmt, env *SpecEnv) (*Contract, []Val) {
 		args = append(args, zero(sig.Params().At(sig.Params().Len()-1).Type()))
 	}
 	return con, args
+}
+
+// rangeIndexFact: in a compiler-generated "range over slice/array/int" loop the hidden index cell is written only by the
+// header's increment, starts at -1 and the body runs only while index+1 < n, with n computed once before the loop. So at
+// the head  -1 <= index < max(n, 0)  holds by construction; it is assumed after the havoc (not a user invariant).
+func (e *Exec) rangeIndexFact(h *State, b *ssa.BasicBlock) {
+	var cell *ssa.Alloc
+	var load *ssa.UnOp
+	var inc *ssa.BinOp
+	for _, ins := range b.Instrs {
+		switch x := ins.(type) {
+		case *ssa.UnOp:
+			if al, ok := x.X.(*ssa.Alloc); ok && al.Comment == "rangeindex" && x.Op == token.MUL && load == nil {
+				cell, load = al, x
+			}
+		case *ssa.BinOp:
+			if x.Op == token.ADD && load != nil && x.X == load && inc == nil {
+				inc = x
+			}
+			if x.Op == token.LSS && inc != nil && x.X == inc {
+				// the bound must be a value defined outside the loop (a register the loop cannot change)
+				if v, ok := h.cells[cell].(Scalar); ok {
+					if n, ok := h.regs[x.Y]; ok {
+						if ns, ok := n.(Scalar); ok {
+							h.assume("(and (<= (- 1) %s) (or (= %s (- 1)) (< %s %s)))", v.T, v.T, v.T, ns.T)
+						}
+					} else if c, ok := x.Y.(*ssa.Const); ok {
+						h.assume("(and (<= (- 1) %s) (or (= %s (- 1)) (< %s %d)))", v.T, v.T, v.T, c.Int64())
+					}
+				}
+				return
+			}
+		}
+	}
 }
